@@ -9,7 +9,8 @@ import os
 import shutil
 
 ROUNDS = [("r1", "/tmp/seeded-out", "all 20 quick checks"), ("r2", "/tmp/seeded-out2", "target property + C15"),
-          ("r3", "/tmp/seeded-out3", "target property + C15"), ("r4", "/tmp/seeded-out4", "target property + C15")]
+          ("r3", "/tmp/seeded-out3", "target property + C15"), ("r4", "/tmp/seeded-out4", "target property + C15"),
+          ("r5", "/tmp/seeded-out5", "target property + C15")]
 DST = "/verif/seeded"
 
 
@@ -50,7 +51,8 @@ def main():
                             source="independent sub-agent given only the property text and its own scratch worktree" + (
                                 "; told to assume a straightforward random test on fresh objects of <=60 residues already exists" if rnd == "r2" else
                                 "; told to list the property's clauses and break the two least likely to be exercised, avoiding the mechanisms of rounds 1-2" if rnd == "r3" else
-                                "; told to assume a strong randomized suite already exists and to make each change need a conjunction of two independent rare conditions" if rnd == "r4" else ""),
+                                "; told to assume a strong randomized suite already exists and to make each change need a conjunction of two independent rare conditions" if rnd == "r4" else
+                                "; told to present each change as a plausible maintenance commit (modernisation, optimisation, refactoring, validation tidy-up) with its commit message, no artificial trapdoors" if rnd == "r5" else ""),
                             needs_to_manifest=notes.strip()[:1800],
                             verified=dict(demo_on_clean_copy_exit=e["demo_clean"], patch_applies=e["applies"], pinned_suite=e["tests"], demo_with_patch_exit=e["demo_patched"],
                                           how="selftest/seeded.py seeded/%s/patch.diff seeded/%s/demo.py --props %s  (scratch copy of /repo, VERIF_REPO)" % (sid, sid, pid)),
@@ -64,7 +66,9 @@ def main():
                 "assume that a straightforward random test on fresh objects of <=60 residues already exists; round r3 agents were told to list the clauses of the\n"
                 "property and to break the two they judged least likely to be exercised, avoiding the mechanisms of the earlier rounds; round r4 agents were told that a strong randomized suite with\n"
                 "long sequences, histories, caller-owned containers and boundary values already exists, and that each change must need a CONJUNCTION of two\n"
-                "independent, individually unremarkable conditions, ideally rarer than 1 in 2000 random inputs). 'confirmed' = demo passes on a clean copy,\n"
+                "independent, individually unremarkable conditions, ideally rarer than 1 in 2000 random inputs; round r5 agents were told to present each\n"
+                "change as an ordinary, well-meant maintenance commit -- modernisation, optimisation, refactoring, validation tidy-up -- with its commit\n"
+                "message, without artificial trapdoors, slipping on an edge of the documented behaviour). 'confirmed' = demo passes on a clean copy,\n"
                 "patch applies, pinned suite unchanged (10 failed, 42 passed), demo fails with the patch. 'first evaluation' = quick checks that raised\n"
                 "a VIOLATION when the change arrived (r1: all 20 quick checks were run; r2: only the target property and C15). 'target now' = does the\n"
                 "target property's own quick check catch it after the strengthening described in DESIGN.md 9.3 / 9.7, and in which buckets.\n\n"
